@@ -221,7 +221,8 @@ EventViol(e, D2, ta) ==
               \cup (IF "tb" \in DOMAIN e THEN TracebackLabels(Tag, e.res, IF "tbx" \in DOMAIN e THEN e.tbx ELSE ChainOf(e.fx), e.tb) ELSE {})
          ELSE {}
     ELSE IF ~Accepted(e)
-    THEN RejectedLabels(Tag, pdefs, e.post.defs, data, dl)
+    THEN RejectedLabels(Tag, pdefs, IF "defs" \in DOMAIN e.post THEN e.post.defs ELSE pdefs, data, dl)
+         \* (a quietly observed history reports no definitions between its operations)
     ELSE IF e.op = "write_read"
     THEN WriteReadLabels(Tag, D2, e, pdefs, data, dl)
     ELSE IF e.op \in {"set_value", "clear_at"}
